@@ -640,7 +640,10 @@ def resolve_shm_batch(
     assert custom_metadata is not None  # guaranteed by is_shm_pointer_batch
     offset_bytes = custom_metadata.get(SHM_OFFSET_KEY)
     length_bytes = custom_metadata.get(SHM_LENGTH_KEY)
-    assert offset_bytes is not None and length_bytes is not None  # guaranteed by is_shm_pointer_batch
+    assert offset_bytes is not None  # guaranteed by is_shm_pointer_batch
+    if length_bytes is None:
+        # is_shm_pointer_batch keys on the offset alone; the length is peer-supplied too.
+        raise ValueError("Shared-memory pointer batch carries an offset but no length")
     offset = int(offset_bytes)
     length = int(length_bytes)
 
